@@ -217,6 +217,33 @@ def r5(ctx):
     ctx.check(bool(srt) and bool(lst) and g.dominates(srt[0].bb, lst[0].bb), 'R5', 'deepest-is-max', srt[0] if srt else f,
               'children are sorted by difficulty-based depth before the deepest (last) is taken', 'deepest child is taken from an unsorted list')
     # T
+    # the documented adaptive depth bound itself: min(threshold, MAX - 1) from MAX_UNSTABLE_BLOCKS unstable
+    # blocks on, linear interpolation MAX -> that minimum below (never less than the minimum)
+    db = ctx.fn('R5', UB + 'testnet_unstable_max_depth_difference')
+    if db:
+        rows = table(prog, db)
+        MC = P.maybe_cast
+        MAXD = MC(P.call('ic_btc_canister::blocktree::Depth::get', P.item('MAX_TESTNET_UNSTABLE_DEPTH_DIFFERENCE')))
+        MIND = MC(P.call('min', P.binop('Sub', MAXD, P.const(1)), P.param('stability_threshold')))
+        TOT, CAP = P.param('total_unstable_blocks'), P.item('MAX_UNSTABLE_BLOCKS', 1500)
+        flat = [r for r in rows if P.call('*::Depth::new', MIND)(r[1]) and P.exactly(r[2], [P.binop('Le', CAP, TOT)])]
+        interp = P.call('*::Depth::new', MC(P.call('*::round', P.binop('Sub', MAXD, P.binop('Mul', P.binop('Div', MC(TOT), MC(CAP)), MC(P.binop('Sub', MAXD, MIND)))))))
+        slope = [r for r in rows if interp(r[1]) and P.exactly(r[2], [P.binop('Lt', TOT, CAP)])]
+        ctx.check(len(rows) == 2 and len(flat) == 1 and len(slope) == 1, 'R5', 'depth-bound-formula', db,
+                  'depth bound = min(threshold, MAX-1) when total >= 1500, else round(MAX - total/1500 * (MAX - min))',
+                  'adaptive depth bound is not the documented one: %s' % describe_table(rows))
+    # the threshold the decision multiplies is the configured one: every writer hands it over without a
+    # lossy conversion (a request value that does not fit is refused, never truncated)
+    sets = prog.callers(GUB + '::set_stability_threshold')
+    ctx.floor('R5', 'set_stability_threshold call sites', len(sets), 1)
+    for c in sets:
+        a = ex(prog, c.fn).operand(c.args[1])
+        lossy = [x for x in walk(a) if isinstance(x, tuple) and x[0] == 'cast']
+        ctx.touch(c.fn)
+        ctx.check(not lossy, 'R5', 'threshold-set-unchanged:' + prog.root_of(c.fn).short.rsplit('::', 1)[-1], c,
+                  'the configured stability threshold reaches the unstable blocks without an `as` conversion',
+                  'the requested stability threshold is converted with `as` (%s): a value above the target type\'s range is silently truncated '
+                  '(2^32 + 2 becomes 2), so anchors advance with far less work behind them than configured' % show(a)[:120])
     nt = ctx.fn('R5', GUB + '::normalized_stability_threshold')
     if nt:
         r = ex(prog, nt).local(0)
